@@ -1,7 +1,208 @@
+//! C18 — byte identities of hashed objects are faithful and memory safe
+//! The workload lives in `child`: it is run as a plain release child process (full size) by `run`, and by the
+//! tool legs (Miri, AddressSanitizer, valgrind memcheck) of tools/legs.py at sizes suited to each tool.
 use crate::common::*;
+use indexmap::IndexMap;
+use probminhash::probminhasher::sig::Sig;
+use probminhash::probminhasher::ProbMinHash3aSha;
+use rand::Rng as _;
+use rand::RngCore;
+use serde_json::json;
+
+struct Tally {
+    values: u64,
+    bytes: u64,
+    bad: Vec<String>,
+    distinct: std::collections::HashSet<u64>,
+}
+
+fn check<T: Sig + std::fmt::Debug>(t: &mut Tally, ty: &str, x: &T, expect: Vec<u8>) {
+    let got = x.get_sig();
+    t.values += 1;
+    t.bytes += expect.len() as u64;
+    t.distinct.insert(mix(&[fnv64(ty.as_bytes()), fnv64(&expect)]));
+    if got != expect {
+        if t.bad.len() < 5 {
+            let show = |v: &Vec<u8>| format!("len {} {:02x?}", v.len(), &v[..v.len().min(12)]);
+            t.bad.push(format!("{}: get_sig gives {} but the native-endian bytes are {}", ty, show(&got), show(&expect)));
+        }
+    }
+    // the returned vector is owned: dropping it and calling again must give the same bytes
+    drop(got);
+    let again = x.get_sig();
+    if again != expect && t.bad.len() < 5 {
+        t.bad.push(format!("{}: second call differs from the first", ty));
+    }
+}
+
+fn vec_lens(rng: &mut Rng, n: usize, maxlen: usize) -> Vec<usize> {
+    let mut v = vec![0usize, 1, 2, 3, 5, 7, 8, 9, 15, 16, 17, 31, 33];
+    for _ in 0..n {
+        v.push(rng.random_range(0..=maxlen.min(300)));
+    }
+    v.push(maxlen);
+    v.push(maxlen.saturating_sub(1) | 1);
+    v.retain(|l| *l <= maxlen);
+    v
+}
+
+fn end_to_end<D: Clone + Eq + std::fmt::Debug + Sig + std::hash::Hash>(t: &mut Tally, ty: &str, keys: Vec<D>, placeholder: D, m: usize) {
+    let mut map: IndexMap<D, f64> = IndexMap::new();
+    for (i, k) in keys.iter().enumerate() {
+        map.insert(k.clone(), 1. + i as f64);
+    }
+    let mut s = ProbMinHash3aSha::<D>::new(m, placeholder);
+    s.hash_weigthed_idxmap(&map);
+    let sig = s.get_signature().clone();
+    t.values += 1;
+    for (p, d) in sig.iter().enumerate() {
+        if !map.contains_key(d) {
+            if t.bad.len() < 5 {
+                t.bad.push(format!("{}: ProbMinHash3aSha signature position {} holds {:?} which is not a key of the input", ty, p, d));
+            }
+            break;
+        }
+    }
+    // same input, other instance: same signature
+    let mut s2 = ProbMinHash3aSha::<D>::new(m, keys[0].clone());
+    s2.hash_weigthed_idxmap(&map);
+    if *s2.get_signature() != sig && t.bad.len() < 5 {
+        t.bad.push(format!("{}: two ProbMinHash3aSha instances disagree on the same input", ty));
+    }
+}
+
+/// args: seed, values per scalar type, vectors per vector type, max vector length, end-to-end m
+pub fn child(a: &[String]) -> i32 {
+    let seed: u64 = a.first().and_then(|s| s.parse().ok()).unwrap_or(1);
+    let nscalar: usize = a.get(1).and_then(|s| s.parse().ok()).unwrap_or(100);
+    let nvec: usize = a.get(2).and_then(|s| s.parse().ok()).unwrap_or(20);
+    let maxlen: usize = a.get(3).and_then(|s| s.parse().ok()).unwrap_or(1000);
+    let m: usize = a.get(4).and_then(|s| s.parse().ok()).unwrap_or(16);
+    let mut rng = rng_from(mix(&[seed, 0xC18]));
+    let mut t = Tally { values: 0, bytes: 0, bad: vec![], distinct: Default::default() };
+    // scalars: structured + random
+    let structured: [u64; 10] = [0, 1, 0xff, 0x100, 0x7fff, 0x8000, 0xffff_ffff, 0x8000_0000, u64::MAX, 0x0102_0304_0506_0708];
+    for i in 0..nscalar + structured.len() {
+        let w = if i < structured.len() { structured[i] } else { rng.next_u64() };
+        check(&mut t, "u8", &(w as u8), vec![w as u8]);
+        check(&mut t, "u16", &(w as u16), (w as u16).to_ne_bytes().to_vec());
+        check(&mut t, "u32", &(w as u32), (w as u32).to_ne_bytes().to_vec());
+        check(&mut t, "u64", &w, w.to_ne_bytes().to_vec());
+        check(&mut t, "i16", &(w as i16), (w as i16).to_ne_bytes().to_vec());
+        check(&mut t, "i32", &(w as i32), (w as i32).to_ne_bytes().to_vec());
+    }
+    // strings
+    let alphabet: Vec<char> = "abcXYZ09 _-é€😀\u{0}\n漢".chars().collect();
+    for l in vec_lens(&mut rng, nvec, maxlen.min(2000)) {
+        let s: String = (0..l).map(|_| alphabet[rng.random_range(0..alphabet.len())]).collect();
+        let e = s.as_bytes().to_vec();
+        check(&mut t, "String", &s, e);
+    }
+    // vectors
+    for l in vec_lens(&mut rng, nvec, maxlen) {
+        let v8: Vec<u8> = (0..l).map(|_| rng.next_u32() as u8).collect();
+        check(&mut t, "Vec<u8>", &v8, v8.clone());
+        let v16: Vec<u16> = (0..l).map(|_| rng.next_u32() as u16).collect();
+        let e16: Vec<u8> = v16.iter().flat_map(|x| x.to_ne_bytes()).collect();
+        check(&mut t, "Vec<u16>", &v16, e16);
+        let v32: Vec<u32> = (0..l).map(|_| rng.next_u32()).collect();
+        let e32: Vec<u8> = v32.iter().flat_map(|x| x.to_ne_bytes()).collect();
+        check(&mut t, "Vec<u32>", &v32, e32);
+        // vectors with spare capacity and shrunk vectors (capacity != len)
+        let mut w16: Vec<u16> = Vec::with_capacity(l + 7);
+        w16.extend_from_slice(&v16);
+        let ew: Vec<u8> = w16.iter().flat_map(|x| x.to_ne_bytes()).collect();
+        check(&mut t, "Vec<u16> (spare capacity)", &w16, ew);
+        let mut w32 = v32.clone();
+        w32.truncate(l / 2);
+        let ew: Vec<u8> = w32.iter().flat_map(|x| x.to_ne_bytes()).collect();
+        check(&mut t, "Vec<u32> (truncated)", &w32, ew);
+    }
+    // different values give different bytes (injectivity on a sample): adjacent values of each width
+    for w in [0u32, 1, 255, 256, 65535, 65536] {
+        let a = vec![w, w + 1];
+        let b = vec![w + 1, w];
+        if a.get_sig() == b.get_sig() && t.bad.len() < 5 {
+            t.bad.push(format!("Vec<u32>: {:?} and {:?} have the same byte identity", a, b));
+        }
+        t.values += 2;
+    }
+    // end to end through the Sha based sketcher
+    let nk = 6.min(nscalar.max(2));
+    end_to_end::<u64>(&mut t, "u64 keys", (0..nk).map(|_| rng.next_u64() | 1).collect(), 0, m);
+    end_to_end::<u32>(&mut t, "u32 keys", (0..nk).map(|_| rng.next_u32() | 1).collect(), 0, m);
+    end_to_end::<i32>(&mut t, "i32 keys", (0..nk).map(|i| -(i as i32) - 1).collect(), 0, m);
+    end_to_end::<String>(&mut t, "String keys", (0..nk).map(|i| format!("key-{}-é", i)).collect(), String::new(), m);
+    end_to_end::<Vec<u8>>(&mut t, "Vec<u8> keys", (0..nk).map(|i| vec![i as u8; i + 1]).collect(), vec![], m);
+    end_to_end::<Vec<u16>>(&mut t, "Vec<u16> keys", (0..nk).map(|i| vec![i as u16 + 300; i + 1]).collect(), vec![], m);
+    end_to_end::<Vec<u32>>(&mut t, "Vec<u32> keys", (0..nk).map(|i| vec![i as u32 + 70000; 2 * i + 1]).collect(), vec![], m);
+    for b in &t.bad {
+        println!("C18BAD {}", b);
+    }
+    println!("C18DONE values={} bytes={} distinct={} bad={}", t.values, t.bytes, t.distinct.len(), t.bad.len());
+    if t.bad.is_empty() {
+        0
+    } else {
+        3
+    }
+}
 
 pub fn run(rep: &mut Report) {
-    let _ = rep;
-    eprintln!("C18 not implemented yet");
+    rep.rule = "values of u8/u16/u32/u64/i16/i32 (structured + random), String (multi-byte UTF-8, empty, NUL), Vec<u8>/Vec<u16>/Vec<u32> (lengths 0,1,2,3,odd,random, up to 1e6 elements, with spare capacity and truncated): get_sig must equal the harness-computed native-endian concatenation, twice in a row; ProbMinHash3aSha end to end over every key type (signature members are input keys, two instances agree). The workload runs in a child process (a memory error would abort it) and again under Miri / ASan / valgrind in the tool legs; any tool report, crash or byte mismatch is a violation. Distinct = distinct (type, byte string) pairs observed; non-trivial: all".into();
+    let exe = std::env::current_exe().unwrap();
+    let maxlen = rep.tier.pick(200_000, 1_000_000);
+    let nchild = rep.tier.pick(4u64, 16u64);
+    for c in 0..nchild {
+        let seed = subseed(rep.seed, "C18/child", &[c]);
+        let out = std::process::Command::new(&exe)
+            .args(["child", "c18", &seed.to_string(), "2000", "60", &(if c == 0 { maxlen } else { 5000 }).to_string(), "64"])
+            .env("RUST_BACKTRACE", "0")
+            .stdout(std::process::Stdio::piped())
+            .stderr(std::process::Stdio::piped())
+            .output();
+        match out {
+            Ok(o) => {
+                let text = String::from_utf8_lossy(&o.stdout).to_string();
+                let err = String::from_utf8_lossy(&o.stderr).to_string();
+                let mut done = false;
+                for line in text.lines() {
+                    if let Some(b) = line.strip_prefix("C18BAD ") {
+                        let ty = b.split(':').next().unwrap_or("?").split(' ').next().unwrap_or("?");
+                        rep.violation(&format!("C18/bytes/{}", ty), "release-child", b.to_string(), json!({"child_seed": seed}));
+                    } else if let Some(d) = line.strip_prefix("C18DONE ") {
+                        done = true;
+                        for kv in d.split(' ') {
+                            if let Some((k, v)) = kv.split_once('=') {
+                                let v: u64 = v.parse().unwrap_or(0);
+                                match k {
+                                    "values" => rep.evaluations += v,
+                                    "bytes" => rep.count("release_child.bytes_compared", v),
+                                    "distinct" => {
+                                        for i in 0..v {
+                                            rep.distinct.insert(mix(&[seed, i]));
+                                        }
+                                    }
+                                    _ => {}
+                                }
+                            }
+                        }
+                    }
+                }
+                if !done {
+                    use std::os::unix::process::ExitStatusExt;
+                    rep.violation(
+                        "C18/crash",
+                        "release-child",
+                        format!("the byte-identity workload crashed: exit code {:?}, signal {:?}; stderr: {}", o.status.code(), o.status.signal(), err.lines().rev().take(3).collect::<Vec<_>>().join(" | ")),
+                        json!({"child_seed": seed}),
+                    );
+                }
+            }
+            Err(e) => rep.inconclusive.push(format!("child process could not be run: {}", e)),
+        }
+    }
+    let eb: Vec<u8> = [1u16, 2, 3].iter().flat_map(|x| x.to_ne_bytes()).collect();
+    rep.sample(json!({"type": "Vec<u16>", "value": [1, 2, 3], "expected_bytes_native_endian": eb}));
+    rep.sample(json!({"type": "String", "value": "é€", "expected_bytes": "é€".as_bytes()}));
+    rep.assumptions.push("Miri / ASan / valgrind legs are appended by tools/legs.py (coverage.tool_legs)".into());
 }
-pub fn child(_a: &[String]) -> i32 { 2 }
